@@ -437,11 +437,113 @@ fn fam_lzma2(ctx: &CaseCtx, cov: &mut Cov) -> CaseOut {
     out
 }
 
+/// raw decoder used twice WITHOUT reset: the second decode starts with an empty
+/// window but inherits automaton state and rep distances, so its first symbols
+/// refer to bytes that were never produced in this window
+fn fam_raw_reuse(ctx: &CaseCtx, cov: &mut Cov) -> CaseOut {
+    let mut out = CaseOut::default();
+    let mut rng = ctx.rng();
+    let props = rnd_props(&mut rng);
+    let dict: u32 = *rng.pick(&[64u32, 4096]);
+    // first stream: ends right after a copy (state >= 7) with a large rep0
+    let t1 = rng.range(20, 300) as usize;
+    let (mut p1, it) = prefix(&mut rng, t1, dict as u64);
+    let n = it.hist.len() as u32;
+    if n < 8 {
+        return out;
+    }
+    let d0 = n.min(dict) - rng.below(3) as u32;
+    p1.push(Sym::Match { dist: d0, len: 2 + rng.below(6) as u32 });
+    let mut it1 = Interp::new();
+    for s in &p1 {
+        it1.step(s);
+    }
+    let (pay1, _, out1) = match crate::refmodel::lzma::encode_program(&p1, props) {
+        Ok(x) => x,
+        Err(e) => {
+            out.harness_error(format!("{:?}", e));
+            return out;
+        }
+    };
+    // second stream, encoded as a continuation of the first one's model state but
+    // against an EMPTY history: its first symbol needs a byte at distance rep0
+    let kind = rng.usize_below(3);
+    let first = match kind {
+        0 => Sym::Lit(rng.byte()),
+        1 => Sym::ShortRep,
+        _ => Sym::Rep { idx: rng.below(4) as u8, len: pick_len(&mut rng, false) },
+    };
+    let mut model = Model::new(props);
+    let mut h1 = Vec::new();
+    {
+        let mut e = Encoder::new(&mut model, &mut h1);
+        for s in &p1 {
+            let _ = e.push(s);
+        }
+    }
+    let mut h2: Vec<u8> = Vec::new();
+    let mut e2 = Encoder::new(&mut model, &mut h2);
+    e2.allow_bad_ref = true;
+    e2.fabricate = Some(0);
+    let _ = e2.push(&first);
+    for _ in 0..rng.range(0, 4) {
+        let _ = e2.push(&Sym::Lit(rng.byte()));
+    }
+    let (pay2, _, _) = e2.finish();
+    let fabricated = h2.len() as u64;
+    let mut dec = match sut::raw_lzma_new(props.lc, props.lp, props.pb, dict, Some(out1.len() as u64), None) {
+        Ok(d) => d,
+        Err(v) => {
+            out.harness_error(v.short());
+            return out;
+        }
+    };
+    let sink1 = SharedSink::new();
+    let c1 = sut::raw_lzma_decompress(&mut dec, &pay1, ReaderKind::Slice, &sink1, &sut::new_obs(u64::MAX));
+    if !(c1.verdict.is_ok() && sink1.bytes() == out1) {
+        out.harness_error(format!("first decode failed: {}", c1.verdict.short()));
+        return out;
+    }
+    // no reset: only the expected size is not changeable without reset, so the second
+    // stream is as long as the first one claims at most; use a decoder sized for it
+    let _ = fabricated;
+    let sink2 = SharedSink::new();
+    let obs = sut::new_obs(u64::MAX);
+    let c2 = sut::raw_lzma_decompress(&mut dec, &pay2, ReaderKind::Slice, &sink2, &obs);
+    out.evals += 1;
+    cov.inc("raw_reuse_first_symbol", kind as u32);
+    cov.inc("window.circular(raw, second decode without reset)", 0);
+    out.nontrivial.push(case_hash(&[&pay1, &pay2]));
+    let got = sink2.bytes();
+    ctx.say(format!("raw reuse without reset: first stream {} bytes out ending in {}, second starts with {} -> {} ({} bytes)", out1.len(), p1.last().unwrap().short(), first.short(), c2.verdict.short(), got.len()));
+    match &c2.verdict {
+        Verdict::Err(_) => {
+            if !got.is_empty() {
+                out.violate(
+                    "C09/raw-reuse/fabricated-bytes-before-error",
+                    format!("second decode on a non-reset raw decoder delivered {} bytes although its first symbol ({}) refers to bytes never produced in this window", got.len(), first.short()),
+                    J::obj().set("first_payload_hex", J::s(crate::util::hex_trunc(&pay1, 1024))).set("second_payload_hex", J::s(crate::util::hex_trunc(&pay2, 1024))),
+                );
+            }
+        }
+        other => out.violate(
+            format!("C09/raw-reuse/{}", if other.is_ok() { "accepted".to_string() } else { verdict_sig(other) }),
+            format!(
+                "raw LzmaDecoder (dict {}) decoded a second stream without reset; its first symbol {} needs the byte at distance {} of an empty window: {} with {} bytes delivered",
+                dict, first.short(), d0, other.short(), got.len()
+            ),
+            J::obj().set("first_payload_hex", J::s(crate::util::hex_trunc(&pay1, 1024))).set("second_payload_hex", J::s(crate::util::hex_trunc(&pay2, 1024))),
+        ),
+    }
+    out
+}
+
 fn label(group: &str, i: u32) -> String {
     match group {
         "pos_class" => POS_CLASSES[i as usize].to_string(),
         "bad_kind" => BAD_KINDS[i as usize].to_string(),
         "l2_kind" => L2_KINDS[i as usize].to_string(),
+        "raw_reuse_first_symbol" => ["literal (matched through inherited rep0)", "short rep", "rep match"][i as usize].to_string(),
         g if g.starts_with("window.") => "cases".to_string(),
         _ => std_label(group, i),
     }
@@ -476,6 +578,7 @@ pub fn monitor(tier: Tier) -> Monitor {
         families: vec![
             Family { name: "lzma", count: tier.pick(20_000, 600_000), priority: false, enumerated: false, run: fam_lzma },
             Family { name: "lzma2", count: tier.pick(5_000, 150_000), priority: false, enumerated: false, run: fam_lzma2 },
+            Family { name: "raw_reuse", count: tier.pick(3_000, 60_000), priority: false, enumerated: false, run: fam_raw_reuse },
         ],
         label,
         floors,
